@@ -867,7 +867,14 @@ impl World {
         let Some(slot) = self.nodes[n].conns.get(&c) else {
             return json!({"gone":true});
         };
-        probe_json(&slot.conn.verif_probe(self.epoch), self.probe_level)
+        let mut v = probe_json(&slot.conn.verif_probe(self.epoch), self.probe_level);
+        let st = slot.conn.stats();
+        v["stats"] = json!({"lost":st.path.lost_packets,"lostb":st.path.lost_bytes,
+            "cev":st.path.congestion_events,"sentp":st.path.sent_packets,
+            "lprobe":st.path.lost_plpmtud_probes,"sprobe":st.path.sent_plpmtud_probes,
+            "bh":st.path.black_holes_detected,"udptx":st.udp_tx.datagrams,"udptxb":st.udp_tx.bytes,
+            "udprx":st.udp_rx.datagrams,"udprxb":st.udp_rx.bytes});
+        v
     }
 
     pub fn ep_probe(&self, n: usize) -> Value {
